@@ -74,7 +74,7 @@ def main():
             return _replay(mod, pid, args.replay, findings)
         st = mod.explore(args.tier, seed)
         mins = getattr(mod, "MIN_OUTCOMES", 2)
-        if len(st.outcomes) < mins:
+        if len(st.outcomes) < mins and not st.violations:
             raise HarnessError(
                 f"vacuous exploration: only {len(st.outcomes)} distinct outcomes (< {mins}): {dict(st.outcomes)}"
             )
